@@ -33,6 +33,8 @@ type CutSpec struct {
 	Anchor string // "before call NAME#K" | "after call NAME#K" | "after store NAME"
 	Havoc  []SpecExpr
 	Assert SpecExpr
+	Keep   bool      // lemma: nothing is havoced and no fact is forgotten
+	Assume *SpecExpr // bridge fact assumed (not proved) at this point; listed among the assumptions
 }
 
 type LoopSpec struct {
@@ -58,6 +60,9 @@ type FuncContract struct {
 	MayPanic bool      // panics allowed anywhere (no claim)
 	Assumed  bool
 	Loops    map[int]*LoopSpec
+	Binds    map[string]string // parameter -> global it is required to point to
+	HavocGlobals []string      // globals treated as arbitrary when verifying this function
+	Inline   []string          // callees executed from their bodies (not by contract) inside this function
 	Cuts     map[int]*CutSpec
 	NamedCuts []*CutSpec
 	Secret   []SpecExpr
@@ -308,7 +313,7 @@ func ParseContracts(file, pkg string, configOK func(pred string) bool) (*PkgCont
 			if m[1] != "" {
 				key = strings.TrimSuffix(m[1], ".") + "." + m[2]
 			}
-			cur = &FuncContract{Pkg: pkg, Key: key, Params: fieldsComma(m[3]), Loops: map[int]*LoopSpec{}, Cuts: map[int]*CutSpec{}, Line: line}
+			cur = &FuncContract{Pkg: pkg, Key: key, Params: fieldsComma(m[3]), Loops: map[int]*LoopSpec{}, Cuts: map[int]*CutSpec{}, Binds: map[string]string{}, Line: line}
 			if _, dup := pc.Funcs[key]; dup {
 				return nil, fmt.Errorf("%s: duplicate contract for %s", line, key)
 			}
@@ -368,6 +373,17 @@ func ParseContracts(file, pkg string, configOK func(pred string) bool) (*PkgCont
 				return nil, err
 			}
 			cur.Panics = &e
+		case kw == "bind":
+			// bind p = &Global
+			parts := strings.SplitN(rest, "=", 2)
+			if len(parts) != 2 {
+				return nil, fmt.Errorf("%s: bad bind clause", line)
+			}
+			cur.Binds[strings.TrimSpace(parts[0])] = strings.TrimPrefix(strings.TrimSpace(parts[1]), "&")
+		case kw == "inline":
+			cur.Inline = append(cur.Inline, fieldsComma(rest)...)
+		case kw == "havoc-global":
+			cur.HavocGlobals = append(cur.HavocGlobals, fieldsComma(rest)...)
 		case kw == "assumed":
 			cur.Assumed = true
 		case kw == "ghost":
@@ -402,7 +418,15 @@ func ParseContracts(file, pkg string, configOK func(pred string) bool) (*PkgCont
 					cur.Alias = append(cur.Alias, ap)
 				}
 			}
-		case kw == "cut":
+		case kw == "cut" || kw == "lemma":
+			if kw == "lemma" {
+				// lemma <anchor> : expr   ==  cut <anchor> havoc : expr, keeping all facts
+				i := strings.Index(body, ":")
+				if i < 0 {
+					return nil, fmt.Errorf("%s: bad lemma clause", line)
+				}
+				body = "cut " + strings.TrimSpace(body[5:i]) + " havoc " + body[i:]
+			}
 			m := reCut.FindStringSubmatch(body)
 			named := false
 			if m == nil {
@@ -413,7 +437,7 @@ func ParseContracts(file, pkg string, configOK func(pred string) bool) (*PkgCont
 				return nil, fmt.Errorf("%s: bad cut clause %q", line, body)
 			}
 			n := 0
-			cs := &CutSpec{}
+			cs := &CutSpec{Keep: kw == "lemma"}
 			if named {
 				cs.Anchor = strings.Join(strings.Fields(m[1]), " ")
 			} else {
@@ -430,7 +454,16 @@ func ParseContracts(file, pkg string, configOK func(pred string) bool) (*PkgCont
 				}
 				cs.Havoc = append(cs.Havoc, e)
 			}
-			e, err := parseSpecExpr(m[3], line)
+			body3 := m[3]
+			if i := strings.Index(body3, ";; assume "); i >= 0 {
+				ae, err := parseSpecExpr(body3[i+10:], line)
+				if err != nil {
+					return nil, err
+				}
+				cs.Assume = &ae
+				body3 = body3[:i]
+			}
+			e, err := parseSpecExpr(body3, line)
 			if err != nil {
 				return nil, err
 			}
